@@ -36,6 +36,9 @@ class Item:
     def __repr__(self):
         return "<I%s>" % self.name
 
+    def __len__(self):   # every other item is falsy (an "empty" container-like stack item is still a stack item)
+        return 0 if isinstance(self.name, int) and self.name % 2 else 1
+
 
 ITEMS = {}   # name -> Item for the current case (so that the same node always realizes to the same object)
 
